@@ -4,6 +4,7 @@ import (
 	"bytes"
 	"errors"
 	"fmt"
+	"math"
 
 	"github.com/vmihailenco/msgpack/v5"
 )
@@ -154,6 +155,9 @@ func compareLeafBytes(a, b []byte) (int, error) {
 		case classUint:
 			return cmpUint64(au, bu), nil
 		case classFloat:
+			if math.IsNaN(af) || math.IsNaN(bf) {
+				return 0, fmt.Errorf("%w: NaN is not comparable", ErrTypeMismatch)
+			}
 			return cmpFloat64(af, bf), nil
 		}
 	}
